@@ -415,7 +415,7 @@ func (r readerFunc) Close() error               { return r.c.Close() }
 func TestC04(t *testing.T) {
 	c := ev.New("C04")
 	defer func() { _ = c.Finish() }()
-	c.SetRule("crash-point / fault enumeration: every body of the corpus of valid request and response bodies (see C03) x every cut offset 0..len(body) x terminal answer {clean EOF, io.ErrUnexpectedEOF, transport error} x {answer on a separate read, answer together with the last data} x {HTTP trailers delivered, dropped} (gRPC); plus HTTPClient.Do failing before any response with each answer, the k-th ResponseWriter.Write failing for k = 0..9, and the connection dying after k request bytes; oracle: a response cut before its terminator or a failed transport makes the call fail with a coded non-OK error, delivered messages are a prefix of those sent, nothing hangs (bubble) or panics, the complete body gives the uncut outcome; a request body that failed or stopped inside an envelope never gives the handler a clean end of stream or an OK answer; distinct = (body, offset, answer, placement, trailers); non-trivial = cut before the end or non-EOF answer")
+	c.SetRule("crash-point / fault enumeration: every body of the corpus of valid request and response bodies (see C03) x every cut offset 0..len(body) x terminal answer {clean EOF, io.ErrUnexpectedEOF, transport error, HTTP/2 stream reset by the peer with NO_ERROR / CANCEL (+ REFUSED_STREAM, ENHANCE_YOUR_CALM, INTERNAL_ERROR in thorough)} x {answer on a separate read, answer together with the last data} x {HTTP trailers delivered, dropped} (gRPC); plus HTTPClient.Do failing before any response with each answer, the k-th ResponseWriter.Write failing for k = 0..9, and the connection dying after k request bytes; oracle: a response cut before its terminator or a failed transport makes the call fail with a coded non-OK error, delivered messages are a prefix of those sent, nothing hangs (bubble) or panics, the complete body gives the uncut outcome; a request body that failed or stopped inside an envelope never gives the handler a clean end of stream or an OK answer; distinct = (body, offset, answer, placement, trailers); non-trivial = cut before the end or non-EOF answer")
 	c.Assume("faults are injected at the io.Reader the library reads from; unary Connect bodies cut with a clean EOF are different complete bodies and are not judged")
 	thorough := ev.Thorough()
 	if ev.ReplayFile() != "" {
@@ -477,7 +477,11 @@ func TestC04(t *testing.T) {
 			})
 		}
 		for _, off := range offsets {
-			for _, end := range []string{"eof", "unexpected", "transport"} {
+			ends := []string{"eof", "unexpected", "transport", "rst:NO_ERROR", "rst:CANCEL"}
+			if thorough {
+				ends = append(ends, "rst:REFUSED_STREAM", "rst:ENHANCE_YOUR_CALM", "rst:INTERNAL_ERROR")
+			}
+			for _, end := range ends {
 				for _, wl := range []bool{false, true} {
 					for _, drop := range []bool{true, false} {
 						if !drop && !(w.Proto == PGRPC && !w.Request) {
